@@ -76,7 +76,28 @@ class Instance:
         self.fields[name] = v
 
     def sa_iter(self):
-        return self.oe.class_getattr(self.c, "__iter__", self)()
+        try:
+            it = self.oe.class_getattr(self.c, "__iter__", self)
+        except PyRaise:
+            # no __iter__: Python's sequence protocol (and collections.abc.Sequence's mixin) - items 0, 1, ... until IndexError
+            try:
+                getitem = self.oe.class_getattr(self.c, "__getitem__", self)
+            except PyRaise:
+                raise PyRaise("TypeError")
+            out = []
+            i = 0
+            while True:
+                try:
+                    out.append(getitem(i))
+                except PyRaise as pe:
+                    if pe.name == "IndexError":
+                        break
+                    raise
+                i += 1
+                if i > 100000:
+                    raise Unsupported("unbounded sequence iteration")
+            return out
+        return it()
 
     def __repr__(self):
         return f"<{self.c.name} instance arg={self.fields.get('arg')!r}>"
@@ -840,6 +861,9 @@ class OEvaluator(Evaluator):
 
     # ---- names
     def free_name(self, name: str):
+        ov = self.oe.externals.get("builtins." + name)
+        if ov is not None and name not in self.module.assigns and name not in self.module.functions and name not in self.module.classes and name not in self.module.imports:
+            return ov  # a builtin the check's abstract world supplies (open, print, ...)
         if self.cls_scope is not None and name in self.cls_scope.attrs and not self.lenient_stmts:
             return self.oe.fold_class_attr(self.cls_scope, name)
         if self.cls_scope is not None and not self.lenient_stmts and self.cls_scope.method(name) is not None and self.func_owner is None:
@@ -943,6 +967,10 @@ class OEvaluator(Evaluator):
         if isinstance(v, Record):
             if attr in v.fields:
                 return v.fields[attr]
+            if ("()" + attr) in v.fields:
+                return Native(v.fields["()" + attr], f"{v.cls}.{attr}")  # a recorded method, as a value
+            if __import__("os").environ.get("SA_DEBUG_RAISE"):
+                print(f"[attr] {v.cls}.{attr} missing", file=__import__("sys").stderr)
             raise PyRaise("AttributeError")
         if isinstance(v, EnumMember):
             return v.sa_attr(attr)
@@ -1054,7 +1082,10 @@ class OEvaluator(Evaluator):
                     raise PyRaise("TypeError")
         f = None
         try:
-            f = self.ev(fn) if not (isinstance(fn, ast.Name) and fn.id in ("max", "min", "any", "all", "sum", "list", "tuple", "enumerate", "ord", "chr", "bool", "range", "zip", "dict", "set", "print", "id")) else None
+            if isinstance(fn, ast.Name) and fn.id not in self.env and ("builtins." + fn.id) in self.oe.externals:
+                f = self.free_name(fn.id)
+            else:
+                f = self.ev(fn) if not (isinstance(fn, ast.Name) and fn.id in ("max", "min", "any", "all", "sum", "list", "tuple", "enumerate", "ord", "chr", "bool", "range", "zip", "dict", "set", "print", "id")) else None
         except Unsupported:
             f = None
         if f is not None and getattr(f, "sa_callable", False):
@@ -1236,6 +1267,9 @@ class OEvaluator(Evaluator):
             raise ReturnValue(self.ev(st.value) if st.value is not None else None)
         if isinstance(st, ast.Expr) and isinstance(st.value, ast.Call):
             callee = ast.unparse(st.value.func)
+            if callee == "print" and "builtins.print" in self.oe.externals:
+                self.ev(st.value)  # the world wants to see what is printed
+                return
             if callee == "print" or callee.startswith(("logger.", "logging.", "log.", "_log.", "LOGGER.", "warnings.", "sys.stderr.", "sys.stdout.write")):
                 return  # diagnostics whose value is discarded do not influence the fragment's result
             self.ev(st.value)
